@@ -53,7 +53,7 @@ class C06(Prop):
     nontrivial_rule = (
         "random rename histories (optional constructor batch + 1-6 call batches: partial injective maps incl. swaps, rotations, "
         "identity pairs, chains through temporaries, re-use of freed names, ~15% invalid batches) on function nodes, gates, "
-        "interrupts and nested-graph nodes (inputs and outputs; map_over follows); non-trivial = at least one accepted batch that "
+        "interrupts (multi-output ones answered by a handler dict included) and nested-graph nodes (inputs and outputs; map_over follows); non-trivial = at least one accepted batch that "
         "changes a name; distinct by canonical hash of the case"
     )
     budgets = {"quick": 400, "thorough": 6000}
@@ -62,8 +62,8 @@ class C06(Prop):
     # ---------------------------------------------------------------- cases
     def cases(self, rng: random.Random, tier: str) -> Iterable[dict]:
         while True:
-            target = rng.choice(["fn", "fn", "route", "ifelse", "interrupt", "graph", "graph", "fn-out", "graph-out"])
-            n = rng.randint(1, 4)
+            target = rng.choice(["fn", "fn", "route", "ifelse", "interrupt", "graph", "graph", "fn-out", "graph-out", "interrupt-out"])
+            n = rng.randint(2 if target == "interrupt-out" else 1, 4)
             orig = rng.sample(POOL, n)
             defaults = {p: rng.randint(10, 99) for p in orig if rng.random() < 0.35}
             cur = list(orig)
@@ -101,7 +101,10 @@ class C06(Prop):
     def _node(self, case: dict, env: Env) -> Any:
         t = case["target"]
         orig = case["orig"]
-        if t.endswith("-out"):
+        if t == "interrupt-out":
+            # a multi-output interrupt whose handler answers with a dict keyed by the output names IT declared
+            spec = {"name": "f", "kind": "interrupt", "params": [["inp", None]], "dataOuts": list(orig), "body": {"b": "handlerDict", "k": 5, "distinct": True}}
+        elif t.endswith("-out"):
             spec = {"name": "f", "kind": "fn", "params": [["inp", None]], "dataOuts": list(orig), "body": {"b": "multi", "t": "f", "k": len(orig)} if len(orig) > 1 else {"b": "tag", "t": "f"}}
         else:
             kind = {"fn": "fn", "graph": "fn", "route": "route", "ifelse": "ifelse", "interrupt": "interrupt"}[t]
@@ -117,7 +120,7 @@ class C06(Prop):
             if case["ctor"] and t != "graph":
                 spec["inRen"] = case["ctor"]
         node = build.build_node(spec, 0, [], env, async_bodies=False)
-        if case.get("use_first") and t not in ("graph", "graph-out"):
+        if case.get("use_first") and t not in ("graph", "graph-out", "interrupt-out"):
             # use the node object before any rename call: read its cached views and place it in a graph
             _ = (node.inputs, node.outputs, getattr(node, "defaults", None))
             try:
@@ -180,7 +183,7 @@ class C06(Prop):
                 del vals[c]
         obs["sent"] = [[k, enc_val(v)] for k, v in vals.items()]
         try:
-            if case["target"] == "interrupt":
+            if case["target"] in ("interrupt", "interrupt-out"):
                 res = asyncio.run(AsyncRunner().run(g, vals))
             else:
                 res = SyncRunner().run(g, vals)
@@ -229,6 +232,8 @@ class C06(Prop):
                 got = vals.get(truth[o])
                 inp = sent.get("inp")
                 exp = {"t": ["f", i, inp]} if n > 1 else {"t": ["f", inp]}
+                if case["target"] == "interrupt-out":
+                    exp = 5 + i
                 if case["target"] == "graph-out" or True:
                     if impl.differ(got, exp):
                         return f"output originally named {o!r} (now {truth[o]!r}) holds {got!r}, expected {exp!r}"
